@@ -214,8 +214,43 @@ func checkWebpFields(p *Program, r *Report) {
 	r.Check(all && len(pr.Succ) >= 3, "C05.assigned", "webpmeta", pos, fmt.Sprintf("all %d success paths assign width, height and bit depth (none left at its zero value)", len(pr.Succ)), "a success path leaves a dimension field unassigned (zero): a field is stored twice while its sibling is never stored")
 }
 
-func pngRun(p *Program) *parserRun {
+// pngShortIHDR: the path is only taken by a file whose IHDR chunk declares fewer than the 13
+// data bytes the format fixes (it ran out of IHDR data right after the 9 bytes the parser
+// reads): not a well-formed PNG, outside the domain of C05/C06/C18.
+func pngShortIHDR(e *Engine, o Outcome) bool {
+	var plain []*BoolVal
+	for _, c := range o.St.conds {
+		cc := *c
+		cc.Src, cc.Exact = nil, nil
+		plain = append(plain, &cc)
+	}
+	for _, t := range tagConds(e, o) {
+		if !t.Equal || t.Tag != "IHDR" {
+			continue
+		}
+		L := e.beU32(t.Off.Sub(formInt(4)))
+		if e.refutes(plain, &BoolVal{Op: ">=", A: L, B: formInt(13)}) {
+			return true
+		}
+	}
+	return false
+}
+
+func pngRunRaw(p *Program) *parserRun {
 	return runParser(p, p.Func("meta/pngmeta", "extractMetadata"), parserOpts{MaxIter: 4, MaxForks: 3, FailReads: false})
+}
+
+// pngRun: the PNG parser's explored paths, without those only a short-IHDR file takes.
+func pngRun(p *Program) *parserRun {
+	pr := pngRunRaw(p)
+	var keep []Outcome
+	for _, o := range pr.Succ {
+		if !pngShortIHDR(pr.E, o) {
+			keep = append(keep, o)
+		}
+	}
+	pr.Succ = keep
+	return pr
 }
 
 // pngChain checks that chunk tags on a path sit at chunk boundaries.
@@ -636,6 +671,31 @@ func checkJpegMarkerTable(p *Program, r *Report) {
 	for _, c := range consts {
 		key := fmt.Sprintf("jpeg marker %s (%#x)", c.name, c.val)
 		os := byConst[c.val]
+		if !standalone[c.val] && len(os) > 1 {
+			// a segment length counts its own two bytes: rejecting a smaller one
+			// concerns no well-formed file
+			var keep []Outcome
+			for _, o := range os {
+				failed := false
+				if tp, ok := o.Ret.(Tuple); ok && len(tp) == 2 {
+					if ev, ok := tp[1].(*ErrVal); ok && !ev.IsNil {
+						failed = true
+					}
+				}
+				var plain []*BoolVal
+				for _, cd := range o.St.conds {
+					cc := *cd
+					cc.Src, cc.Exact = nil, nil
+					plain = append(plain, &cc)
+				}
+				if failed && e.refutes(plain, &BoolVal{Op: ">=", A: e.beU16(formInt(0)), B: formInt(2)}) {
+					continue
+				}
+				keep = append(keep, o)
+			}
+			os = keep
+			byConst[c.val] = os
+		}
 		if len(os) != 1 {
 			r.Violate("C05.dispatch", key, p.FnPos(mm), fmt.Sprintf("makeMarker has %d outcomes for this marker value; exactly one expected", len(os)))
 			continue
